@@ -21,6 +21,8 @@ pub struct Eval {
     pub cfg: Cfg,
     pub range: Range,
     pub pinned: bool,
+    /// precomputed comment-slot part of the signature (single-comment enumeration)
+    pub presig: Option<String>,
 }
 
 pub const WIDTHS_QUICK: [usize; 3] = [120, 80, 40];
@@ -77,6 +79,8 @@ pub struct Families {
     pub no_collapse: bool,
     /// also evaluate seeded programs at critical widths of their infinite-width output
     pub seeded_critical: bool,
+    /// pinned: one comment of each shape after every token of the small corpus files
+    pub comment_enum: bool,
 }
 
 impl Work {
@@ -112,6 +116,9 @@ impl Work {
         }
         if fam.corpus_sort {
             n += self.corpus.len();
+        }
+        if fam.comment_enum && !only_seeded {
+            n += self.corpus.len() * 3;
         }
         let seeded = match tier {
             Tier::Quick => 600,
@@ -165,6 +172,7 @@ impl Work {
                             cfg: c,
                             range: None,
                             pinned: true,
+                            presig: None,
                         },
                     );
                 }
@@ -191,6 +199,7 @@ impl Work {
                                 cfg: c,
                                 range: None,
                                 pinned: true,
+                            presig: None,
                             },
                         );
                     }
@@ -222,6 +231,7 @@ impl Work {
                             cfg: base.clone(),
                             range: r,
                             pinned: true,
+                            presig: None,
                         },
                     );
                 }
@@ -245,12 +255,20 @@ impl Work {
                             cfg: c,
                             range: None,
                             pinned: true,
+                            presig: None,
                         },
                     );
                 }
                 return;
             }
             i -= self.corpus.len();
+        }
+        if fam.comment_enum && !only_seeded {
+            if i < self.corpus.len() * 3 {
+                self.comment_enum_item(ctx, i / 3, i % 3, f);
+                return;
+            }
+            i -= self.corpus.len() * 3;
         }
         let seeded = match ctx.tier {
             Tier::Quick => 600,
@@ -278,6 +296,7 @@ impl Work {
                         cfg: base.clone(),
                         range: None,
                         pinned: false,
+                        presig: None,
                     },
                 );
                 if !fam.seeded_critical {
@@ -305,6 +324,7 @@ impl Work {
                                 cfg: c,
                                 range: None,
                                 pinned: false,
+                        presig: None,
                             },
                         );
                     }
@@ -346,6 +366,102 @@ impl Work {
                         cfg: c,
                         range: None,
                         pinned: false,
+                        presig: None,
+                    },
+                );
+            }
+        }
+    }
+}
+
+impl Work {
+    /// W-enum: one comment of shape `shape` after every significant token of corpus file `fi`
+    /// (comments of the file removed first, so the inserted comment is the only one).
+    fn comment_enum_item(&self, ctx: &mut Ctx, fi: usize, shape: usize, f: &mut dyn FnMut(&mut Ctx, &Eval)) {
+        use crate::lex;
+        use crate::sig;
+        use crate::stmts;
+        let file = &self.corpus[fi];
+        if file.text.lines().count() > 200 || file.text.len() > 6000 {
+            return;
+        }
+        let base = Cfg::with_syntax(file.syntax);
+        // files that are expensive to format (measured in logical steps, deterministic) are left to
+        // the other families: the enumeration multiplies the cost by the number of tokens
+        if fmt::run(&file.text, &base, None, false, false).ticks > 4000 {
+            ctx.count("cenum.skipped_expensive_file");
+            return;
+        }
+        let cs = sig::comments(&file.text);
+        let rm: Vec<bool> = cs.iter().map(|c| !c.directive && c.shape != "shebang").collect();
+        let text = sig::without(&file.text, &cs, &rm);
+        let ast = match fmt::parse(&text, &base) {
+            Some(a) => a,
+            None => return,
+        };
+        let infos = stmts::collect(&ast);
+        let lx = match lex::lex(&text) {
+            Ok(l) => l,
+            Err(_) => return,
+        };
+        let ts0 = lex::token_stream(&lx, base.int_subtype());
+        let toks: Vec<lex::Tok> = lx.toks().cloned().collect();
+        let class = |t: &lex::Tok| -> String {
+            let s = &text[t.start..t.end];
+            match t.kind {
+                lex::TokKind::Name => if lex::is_keyword(s) { s.to_string() } else { "ID".to_string() },
+                lex::TokKind::Number => "NUM".to_string(),
+                lex::TokKind::Str => "STR".to_string(),
+                lex::TokKind::InterpSeg => "ISTR".to_string(),
+                lex::TokKind::Sym => s.to_string(),
+            }
+        };
+        let (shape_name, ins) = match shape {
+            0 => ("line-trailing", " -- c9\n"),
+            1 => ("block-inline", " --[[c9]] "),
+            _ => ("line-own", "\n-- c9\n"),
+        };
+        let quick = ctx.quick();
+        let widths: &[usize] = if quick { &[120, 40] } else { &[120, 40, 20] };
+        for (k, t) in toks.iter().enumerate() {
+            if quick && (k + fi) % 11 != 0 {
+                continue;
+            }
+            let pos = t.end;
+            let modified = format!("{}{}{}", &text[..pos], ins, &text[pos..]);
+            if !fmt::parses(&modified, &base) {
+                ctx.count("cenum.rejected_by_parser");
+                continue;
+            }
+            match lex::lex(&modified) {
+                Ok(l2) if lex::token_stream(&l2, base.int_subtype()) == ts0 => {}
+                _ => {
+                    ctx.count("cenum.changes_tokens");
+                    continue;
+                }
+            }
+            // innermost statement containing the insertion point
+            let kind = infos
+                .iter()
+                .filter(|s| s.start < pos && pos < s.end)
+                .max_by_key(|s| s.depth)
+                .map(|s| s.kind)
+                .unwrap_or("Block");
+            let next = toks.get(k + 1).map(|n| class(n)).unwrap_or_else(|| "EOF".to_string());
+            let presig = format!("{shape_name}:{kind}:{}|{next}", class(t));
+            ctx.count("cenum.cases");
+            for w in widths {
+                let mut c = base.clone();
+                c.column_width = *w;
+                f(
+                    ctx,
+                    &Eval {
+                        id: format!("cenum:{}:{shape_name}:tok{k}:w{w}", file.name),
+                        src: modified.clone(),
+                        cfg: c,
+                        range: None,
+                        pinned: true,
+                        presig: Some(presig.clone()),
                     },
                 );
             }
